@@ -137,7 +137,7 @@ package tchannel
 //@   requires FrameFull(f) && f.Header.size >= 16 && cs != nil
 //@   modifies cs(cs), elems(f.Payload)
 //@   label continuation-frame-is-always-restamped
-//@   ensures ChecksumType(tcode(cs)).ChecksumSize() == 4 && f.Header.size - 16 >= 8 && f.Header.size - 16 >= 8 + be16(old(f.Payload), 6) ==>
+//@   ensures ChecksumType(ctype(cs)).ChecksumSize() == 4 && f.Header.size - 16 >= 8 && f.Header.size - 16 >= 8 + be16(old(f.Payload), 6) ==>
 //@             cs(cs) == csupd(old(cs(cs)), old(f.Payload[8:8+be16(f.Payload, 6)])) && be32(f.Payload, 2) == cssum(cs(cs))
 //@   property C02 C08
 
